@@ -8,7 +8,8 @@ import crash as C
 
 LEVEL = "fault_enumeration"
 COQ_TARGETS = ("props/C02.vo",)
-THEOREMS = ["C02_acknowledged_bytes_reach_the_os", "C02_journal_recovers_acknowledged_prefix"]
+THEOREMS = ["C02_acknowledged_bytes_reach_the_os", "C02_journal_recovers_acknowledged_prefix",
+            "C02_acknowledged_write_is_journaled_partial", "C02_acknowledged_clear_is_journaled_partial"]
 
 
 def allowed_states(prog, states, last_line):
